@@ -21,7 +21,7 @@ def cfg_name(keys, rk, readd, af):
 def run(ctx):
     thorough = ctx.tier == 'thorough'
     rb = os.path.join(C.LIFT, 'rbtree_model.c')
-    L = C.lift(ctx, 'C28', os.path.join(H, 'wrap.cpp'), ROOTS, models=[rb], retype=RETYPE)
+    L = C.lift(ctx, 'C28', os.path.join(H, 'wrap.cpp'), ROOTS, models=[rb], retype=RETYPE, libocca=True)
     cfgs = [(['a', 'abc'], None, None, 0), (['ab', 'a'], None, None, 1), (['a', 'b'], 'a', None, 0), (['ba', 'bb'], 'bc', None, 0)]
     if thorough:
         cfgs += [(['ab', 'ab'], None, None, 0), (['a', 'abc'], 'a', None, 1), (['b', 'ab'], None, None, 0), (['ab', 'b'], 'b', None, 1), (['a', 'ab'], None, None, 0), (['ba', 'a'], 'ba', None, 0)]
@@ -55,4 +55,4 @@ def run(ctx):
 
 
 def relift(ctx):
-    return C.lift(ctx, 'C28', os.path.join(H, 'wrap.cpp'), ROOTS, models=[os.path.join(C.LIFT, 'rbtree_model.c')], retype=RETYPE)
+    return C.lift(ctx, 'C28', os.path.join(H, 'wrap.cpp'), ROOTS, models=[os.path.join(C.LIFT, 'rbtree_model.c')], retype=RETYPE, libocca=True)
